@@ -164,6 +164,12 @@ def gen(rnd, sid, mode=None, features=None, tank_bias=False):
             st = rnd.choice([0, H, H + 600, 2 * H])
             nd["leak"] = {"on": True, "area": rgrid(rnd, 0.0001, 0.002, 0.0001), "cd": rnd.choice([0.75, 0.6, 1.0]),
                           "start": st, "end": rnd.choice([-1, st + H, st + 2 * H + 300])}
+        # a leak on a tank, mostly starting during the run and still active when the run ends
+        tanks = [n for n in s["nodes"] if n["type"] == "T"]
+        if tanks and rnd.random() < 0.4:
+            st = rnd.choice([H, H + 600, 2 * H, 0])
+            rnd.choice(tanks)["leak"] = {"on": True, "area": rgrid(rnd, 0.0001, 0.001, 0.0001), "cd": rnd.choice([0.75, 0.6]),
+                                         "start": st, "end": rnd.choice([-1, -1, st + 2 * H + 300])}
     # time controls on pipes (status) - may isolate parts of the network
     if "controls" in f and rnd.random() < 0.6:
         plinks = [i + 1 for i, l in enumerate(links) if l["type"] == "pipe"]
